@@ -52,12 +52,27 @@ if r.returncode == 0:
     run(["git", "-C", WT, "checkout", "--", "."])
     run(["cmake", "--build", BD, "-j", "12"])   # back to the unchanged objects for the next one
 # 4: demonstration
-if os.path.isfile(os.path.join(src, "build.sh")):
+def demo_run():
     r = run(["bash", "build.sh"], cwd=src, timeout=3600)
     out = r.stdout
-    ex = re.findall(r"(?i)(orig|unmod|clean|mod|patched|changed)\w*[^\n]{0,40}?exit[^\n]{0,20}?(\d+)", out)
-    meta["demo"] = {"cmd": "bash build.sh (in the sub-agent's output directory; builds and runs the demonstration on the unmodified and on the changed code)",
-                    "exit": r.returncode, "exit_codes_seen": ex[-6:], "output_head": out[:1200], "output_tail": out[-1800:]}
+    ok_orig = bool(re.search(r"(?m)\bOK\b", out))
+    bad_mod = bool(re.search(r"(?i)(exit(?: status| code)?[:= ]+[1-9]\d*|FAIL|BROKEN|violation|mismatch)", out))
+    return r, out, ok_orig and bad_mod
+if os.path.isfile(os.path.join(src, "build.sh")) and "--no-demo" not in sys.argv:
+    r, out, good = demo_run()
+    how = "bash build.sh (in the sub-agent's output directory; builds and runs the demonstration on the unmodified and on the changed code)"
+    if not good:
+        # some build.sh expect the sub-agent's own worktree to carry the patch for the changed-code half
+        m = re.search(r"/tmp/seed/wt_s\d+", open(os.path.join(src, "build.sh")).read() + src)
+        awt = m.group(0) if m else None
+        if awt and os.path.isdir(awt) and run(["git", "-C", awt, "apply", patch]).returncode == 0:
+            try:
+                r, out, good = demo_run()
+                how += " — run with patch.diff applied in the sub-agent's worktree, reverted afterwards"
+            finally:
+                run(["git", "-C", awt, "checkout", "--", "."])
+    meta["demo"] = {"cmd": how, "exit": r.returncode, "output_head": out[:1500], "output_tail": out[-2000:]}
+    meta["demo_verdict"] = "OK / fails" if good else "inspect output"
 # 5: our check
 r = run([sys.executable, os.path.join(V, "tools", "try_seeded.py"), prop, patch])
 meta["check"] = {"cmd": "tools/try_seeded.py %s seeded/%s/patch.diff  (quick tier, seed 0)" % (prop, sid), "exit": r.returncode,
